@@ -55,6 +55,8 @@ class Contract:
     result_fields: dict = field(default_factory=dict)
     cancel_at_yield: bool = False             # explore CancelledError at every await of this function
     inline: bool = False
+    bounded: str | None = None                     # name of a bounded stand-in (replaylib/bounded.py); implies not proved
+    setup: object = None                           # callable(ip, env): installs concrete parts of the pre-state (representation)
     variants: dict = field(default_factory=dict)       # variant name -> binds override: the body is verified once per variant
     clause_props: dict = field(default_factory=dict)   # obligation-name glob -> properties it belongs to (default: all of serves)
     result_expr: str | None = None            # the result is this (existing) value, not a fresh one
